@@ -166,7 +166,7 @@ def coverage(pid, tm):
 
 
 # ---------------------------------------------------------------------------
-@prop('C03', ['Tree', 'DecorAbs', 'DecorType', 'DecorFCard', 'TreeCtc', 'Mix', 'Ctc3', 'Wide', 'Edit1', 'EditWalk'], naming_matters=False,
+@prop('C03', ['Tree', 'DecorAbs', 'DecorType', 'DecorFCard', 'TreeCtc', 'Mix', 'Ctc3', 'Wide', 'Edit1', 'Edit1s', 'EditWalk'], naming_matters=False,
       assumptions=['models are built through Feature/Relation/add_relation/ctcs.append, as in the readers'])
 def script_c03(case, naming, tier, seed):
     build_part, edits = split_edits(case['hist'])
@@ -271,13 +271,13 @@ def with_chain(script):
 
 SEM_ASSUME = ['Boolean models; constraints purely propositional over feature names',
               'exact counts are brute force over all 2^n selections, n <= family bound']
-prop('C13', ['Tree', 'TreeStar', 'TreeCtc', 'Big', 'Wide', 'Chain', 'Ctc3', 'Req2', 'DecorAbs', 'Edit1', 'EditWalk', 'WideLeaves'], naming_matters=True,
+prop('C13', ['Tree', 'TreeStar', 'TreeCtc', 'Big', 'Wide', 'Chain', 'Ctc3', 'Req2', 'DecorAbs', 'Edit1', 'Edit1s', 'EditWalk', 'WideLeaves'], naming_matters=True,
      name_classes=('casepair', 'natural'), name_stride={'quick': 8, 'thorough': 3}, assumptions=SEM_ASSUME,
      prepare=prepare_chain)(with_chain(ops_script(['estimate'])))
-prop('C14', ['Tree', 'TreeStar', 'TreeCtc', 'Big', 'Wide', 'Chain', 'Ctc3', 'Req2', 'DecorAbs', 'Edit1', 'EditWalk'], naming_matters=True,
+prop('C14', ['Tree', 'TreeStar', 'TreeCtc', 'Big', 'Wide', 'Chain', 'Ctc3', 'Req2', 'DecorAbs', 'Edit1', 'Edit1s', 'EditWalk'], naming_matters=True,
      name_classes=('casepair', 'natural'), name_stride={'quick': 8, 'thorough': 3}, assumptions=SEM_ASSUME,
      prepare=prepare_chain)(with_chain(ops_script(['core'])))
-prop('C15', ['Tree', 'TreeStar', 'TreeCtc', 'Big', 'Wide', 'Chain', 'Ctc3', 'Req2', 'DecorAbs', 'Edit1', 'EditWalk'], naming_matters=True,
+prop('C15', ['Tree', 'TreeStar', 'TreeCtc', 'Big', 'Wide', 'Chain', 'Ctc3', 'Req2', 'DecorAbs', 'Edit1', 'Edit1s', 'EditWalk'], naming_matters=True,
      name_classes=('casepair', 'natural'), name_stride={'quick': 8, 'thorough': 3}, assumptions=SEM_ASSUME,
      prepare=prepare_chain)(with_chain(ops_script(['atomic'])))
 C16_OPS = ['leaves', 'count_leaves', 'depth', 'abf', 'varpoints', 'ancestors']
@@ -350,7 +350,7 @@ METRIC_METHODS = [
     'extra_constraint_representativeness']
 
 
-@prop('C17', ['Tree', 'DecorAbs', 'TreeCtc', 'Mix', 'Ctc3', 'Wide', 'Chain', 'Deep-Ctc', 'C12-Deep', 'Edit1', 'EditWalk'], name_classes=('substr',), naming_matters=True, name_stride={'quick': 5, 'thorough': 2},
+@prop('C17', ['Tree', 'DecorAbs', 'TreeCtc', 'Mix', 'Ctc3', 'Wide', 'Chain', 'Deep-Ctc', 'C12-Deep', 'Edit1', 'Edit1s', 'EditWalk'], name_classes=('substr',), naming_matters=True, name_stride={'quick': 5, 'thorough': 2},
       assumptions=['constraint listings are compared with the per-constraint predicates of the model (judged by C18)'])
 def script_c17(case, naming, tier, seed):
     b, ev = load_event(case, naming)
@@ -456,7 +456,7 @@ def _exec_any(obj, objid, op, model, naming, builder, seqno):
     return observe.exec_op(obj, objid, op, model, naming, fobj, seqno=seqno)
 
 
-@prop('C19', ['Tree', 'TreeCtc', 'DecorAttr', 'Hist', 'Edit1', 'EditWalk', 'TreeStar', 'DecorAbs', 'Deep-Ctc', 'C12-Deep'], naming_matters=False, prepare=prepare_hist,
+@prop('C19', ['Tree', 'TreeCtc', 'DecorAttr', 'Hist', 'Edit1', 'Edit1s', 'EditWalk', 'TreeStar', 'DecorAbs', 'Deep-Ctc', 'C12-Deep'], naming_matters=False, prepare=prepare_hist,
       assumptions=['"depends only on its argument" is checked as: over one history, equal (operation, argument, model) '
                    'give equal results whichever object is used and whatever it analysed before'])
 def script_c19(case, naming, tier, seed):
@@ -523,7 +523,7 @@ def script_c19(case, naming, tier, seed):
 
 
 # ---------------------------------------------------------------------------
-@prop('C20', ['Eq', 'Eq2', 'Eq3', 'Edit1', 'EditWalk'], name_classes=('plain', 'afmword', 'space', 'natural', 'casepair'), naming_matters=True,
+@prop('C20', ['Eq', 'Eq2', 'Eq3', 'Edit1', 'Edit1s', 'EditWalk'], name_classes=('plain', 'afmword', 'space', 'natural', 'casepair'), naming_matters=True,
       assumptions=['names never differ only in letter case (the one situation where the statement allows either answer)',
                    'features carry no attributes in this family; equality ignores them'])
 def script_c20(case, naming, tier, seed):
@@ -714,7 +714,7 @@ def prepare_c12(cases, tier, seed):
     return res
 
 
-@prop('C12', ['C12-Tree', 'C12-Ctc', 'C12-Ctc2', 'C12-Attr', 'C12-Edit1', 'C12-EditWalk', 'C12-Deep'], name_classes=('nonascii', 'space', 'nonnfc'), naming_matters=True,
+@prop('C12', ['C12-Tree', 'C12-Ctc', 'C12-Ctc2', 'C12-Attr', 'C12-Edit1', 'C12-Edit1s', 'C12-EditWalk', 'C12-Deep'], name_classes=('nonascii', 'space', 'nonnfc'), naming_matters=True,
       name_stride={'quick': 2, 'thorough': 1}, prepare=prepare_c12,
       assumptions=['the environment matrix (hash seeds x locale x PYTHONUTF8) is sampled, not exhaustive',
                    'purity is judged on the projected object graph'])
@@ -777,12 +777,12 @@ def export_script(langs):
     return script
 
 
-prop('C10', ['Tree', 'TreeCtc', 'Clafer-Ctc2', 'Deep-Ctc', 'Wide', 'Ctc3', 'Req2', 'Edit1', 'EditWalk'], naming_matters=True,
+prop('C10', ['Tree', 'TreeCtc', 'Clafer-Ctc2', 'Deep-Ctc', 'Wide', 'Ctc3', 'Req2', 'Edit1', 'Edit1s', 'EditWalk'], naming_matters=True,
      name_classes=('casepair',), name_stride={'quick': 4, 'thorough': 2},
      assumptions=['the .exp precedence is not < and < or < -> < <->, binary connectives left-associative',
                   'SXFM identifiers may be bare words or double-quoted strings'],
      trusted=['harness/parse_export.py (syntax of SXFM and .exp only)'])(export_script(['splot', 'pl']))
-prop('C11', ['Clafer-Tree', 'Clafer-Ctc', 'Clafer-Ctc2', 'Deep-Ctc', 'Clafer-Attr', 'Wide', 'Ctc3', 'Req2', 'Edit1', 'EditWalk'], name_classes=('space', 'punct', 'opword', 'dot', 'casepair'), naming_matters=True,
+prop('C11', ['Clafer-Tree', 'Clafer-Ctc', 'Clafer-Ctc2', 'Deep-Ctc', 'Clafer-Attr', 'Wide', 'Ctc3', 'Req2', 'Edit1', 'Edit1s', 'EditWalk'], name_classes=('space', 'punct', 'opword', 'dot', 'casepair'), naming_matters=True,
      attr_names_too=True,
      assumptions=['both ! and not are accepted as Clafer negation', 'identifiers may be bare words or double-quoted strings'],
      trusted=['harness/parse_export.py (syntax of the Clafer subset only)'])(export_script(['clafer']))
@@ -1065,6 +1065,6 @@ def script_c02(case, naming, tier, seed):
     return script_c09(case, naming, tier, seed)
 
 
-prop('C16', ['Tree', 'TreeStar', 'DecorAbs', 'Big', 'Wide', 'Chain', 'Edit1', 'EditWalk'], naming_matters=True,
+prop('C16', ['Tree', 'TreeStar', 'DecorAbs', 'Big', 'Wide', 'Chain', 'Edit1', 'Edit1s', 'EditWalk'], naming_matters=True,
      name_classes=('casepair', 'natural'), name_stride={'quick': 8, 'thorough': 3}, prepare=prepare_c16,
      assumptions=['corpus models above the TLC size bound are judged on the mutual agreement of scalar results only'])(script_c16)
